@@ -1,123 +1,22 @@
-(* Proofs for property C09 (client characteristic configuration is per connection and exact). *)
-From Coq Require Import Lia ZifyBool.
-From BT Require Import Base.ListX Base.Bits2 AttDb.AttDbModel NQueue.NQueueModel AttSrv.AttSrvModel
-  AttSrv.AttSrvFrame AttSrv.AttSrvCbModel.
+(* find_notification_data_in_list (AttDbModel.v: cccd_infos, stable_sort, sorted_infos, cccd_indices,
+   cccd_position, find_notification_data_by_index): for EVERY configuration and priority declaration
+
+     - the priority sort is a permutation of the characteristics with a CCCD,
+     - their declaration order numbers (ci_pos = ClientCharacteristicIndex) are 0 .. k-1, k =
+       number_of_client_configs,
+     - so the position [cccd_position c cci] that the CCCD attribute number cci uses in the per
+       connection store is < k, is a bijection, and is exactly the index under which
+       find_notification_data_by_index returns that characteristic.
+   Used by C09 and C10. *)
+From Coq Require Import Lia ZifyBool Permutation.
+From BT Require Import Base.ListX AttDb.AttDbModel.
 Local Open Scope N_scope.
 
-(* ------------------------------------------------------------------ the packed store is Bits2's *)
-Lemma to_nat_div4 i : N.to_nat (i / 4) = boff (N.to_nat i).
-Proof. unfold boff. rewrite N2Nat.inj_div. reflexivity. Qed.
-Lemma to_nat_mod4 i : N.to_nat (i mod 4) = slot (N.to_nat i).
-Proof. unfold slot. rewrite N2Nat.inj_mod. reflexivity. Qed.
-Lemma sh_slot i : sh (slot (N.to_nat i)) = (i mod 4) * 2.
-Proof. unfold sh. rewrite <- to_nat_mod4. lia. Qed.
-
-Lemma cccd_get_get2 d i : cccd_get d i = get2 d (N.to_nat i).
-Proof. unfold cccd_get, get2, bget. rewrite to_nat_div4, sh_slot. reflexivity. Qed.
-
-Lemma cccd_set_set2 d i v : cccd_set d i v = set2 d (N.to_nat i) v.
-Proof. unfold cccd_set, set2, byte_set. cbv zeta. rewrite to_nat_div4, sh_slot. reflexivity. Qed.
-
-Lemma set2_land q i v : set2 q i v = set2 q i (N.land v 3).
-Proof. unfold set2. rewrite byte_set_land. reflexivity. Qed.
-
-(* lens laws for ANY number n of CCCDs; positions are N as in the model *)
-Definition store_ok (n : N) (d : list N) : Prop := bytes_ok d /\ length d = nbytes (N.to_nat n).
-
-Theorem cccd_lens n d i v :
-  store_ok n d -> i < n ->
-  cccd_get (cccd_set d i v) i = N.land v 3
-  /\ (forall j, j < n -> j <> i -> cccd_get (cccd_set d i v) j = cccd_get d j)
-  /\ store_ok n (cccd_set d i v)
-  /\ cccd_get d i < 4.
+(* ------------------------------------------------------------------ index_ofN *)
+Lemma index_ofN_in x l : In x l -> index_ofN x l < len l /\ nth_error l (N.to_nat (index_ofN x l)) = Some x.
 Proof.
-  intros [B L] Hi. rewrite cccd_set_set2, set2_land. rewrite !cccd_get_get2.
-  assert (V : N.land v 3 < 4) by apply land3_lt.
-  assert (Hn : (N.to_nat i < N.to_nat n)%nat) by lia.
-  repeat split.
-  - eapply get2_set2_eq; eauto.
-  - intros j Hj Nj. rewrite !cccd_get_get2. eapply get2_set2_neq; eauto. lia.
-  - eapply set2_ok; eauto.
-  - eapply set2_ok; eauto.
-  - eapply get2_lt with (v := 0); auto. lia.
-Qed.
-
-Lemma store_ok_set n d i v : store_ok n d -> store_ok n (cccd_set d i v).
-Proof.
-  intros [B L]. rewrite cccd_set_set2, set2_land. split; eapply set2_ok; eauto; apply land3_lt.
-Qed.
-
-Lemma nbytes_N n : nbytes (N.to_nat n) = N.to_nat ((n * 2 + 7) / 8).
-Proof. unfold nbytes. rewrite N2Nat.inj_div, N2Nat.inj_add, N2Nat.inj_mul. reflexivity. Qed.
-
-(* ------------------------------------------------------------------ every reachable connection has a well formed store *)
-Definition conn_store_ok (c : cfg) (k : conn) : Prop := store_ok (number_of_client_configs c) (cccd k).
-
-Theorem store_ok_reachable c ops j k :
-  get_conn (srv_after c (srv_init c) ops) j = Some k -> conn_store_ok c k.
-Proof.
-  revert j k. apply (inv_reachable c (conn_store_ok c)).
-  - unfold conn_store_ok, init_conn. cbn [cccd]. split; [apply bytes_ok_repeat|].
-    rewrite repeat_length, nbytes_N. reflexivity.
-  - intros k m H _. exact H.
-  - intros k pos v H. unfold conn_store_ok in *. cbn [cccd]. apply store_ok_set. exact H.
-  - intros k o H. unfold conn_store_ok, nq_step in *. destruct (NQueueModel.step (nq k) o). exact H.
-  - intros k e p H. exact H.
-Qed.
-
-(* ------------------------------------------------------------------ the CCCD attribute *)
-(* the 16 bit value a write of [data] (at most 2 bytes) at offset 0 hands to flags( index, v ) *)
-Definition written_value (old : N) (data : list N) : N :=
-  let ser := takeN 2 (data ++ dropN (len data) [old; 0]) in nth 0 ser 0 + 256 * nth 1 ser 0.
-
-Lemma written_value_bits old data :
-  old < 4 -> Forall (fun b => b < 256) data -> (length data <= 2)%nat ->
-  N.land (written_value old data) 3 = match data with [] => old | b :: _ => N.land b 3 end.
-Proof.
-  intros Ho F L. unfold written_value.
-  destruct data as [|b0 [|b1 [|b2 t]]]; [| | |simpl in L; lia].
-  - change (takeN 2 ([] ++ dropN (len []) [old; 0])) with [old; 0]. cbn [nth].
-    rewrite N.mul_0_r, N.add_0_r. change 3 with (N.ones 2). rewrite N.land_ones. apply N.mod_small. exact Ho.
-  - change (takeN 2 ([b0] ++ dropN (len [b0]) [old; 0])) with [b0; 0]. cbn [nth].
-    rewrite N.mul_0_r, N.add_0_r. reflexivity.
-  - change (takeN 2 ([b0; b1] ++ dropN (len [b0; b1]) [old; 0])) with [b0; b1]. cbn [nth].
-    change 3 with (N.ones 2). rewrite !N.land_ones. change (2 ^ 2) with 4.
-    replace (b0 + 256 * b1) with (b0 + (64 * b1) * 4) by lia. rewrite N.mod_add by discriminate. reflexivity.
-Qed.
-
-Lemma cccd_write_unfold c st cid k cci data :
-  cccd_write c st cid k cci 0 data =
-  if 2 <? len data + 0 then (st, Err err_invalid_attribute_value_length)
-  else (set_conn st cid (mkConn (client_mtu k)
-          (cccd_set (cccd k) (cccd_position c cci) (written_value (cccd_get (cccd k) (cccd_position c cci)) data))
-          (encrypted k) (pairing k) (nq k)), Success).
-Proof. unfold cccd_write, written_value. change (2 <? 0) with false. change (0 =? 0) with true. cbv iota zeta. reflexivity. Qed.
-
-(* a write that the CCCD attribute accepts: exactness on this connection, nothing else changes *)
-Theorem cccd_write_exact c st cid k cci data st' :
-  get_conn st cid = Some k -> conn_store_ok c k ->
-  cccd_position c cci < number_of_client_configs c ->
-  Forall (fun b => b < 256) data ->
-  cccd_write c st cid k cci 0 data = (st', Success) ->
-  (length data <= 2)%nat /\
-  exists k', get_conn st' cid = Some k'
-    /\ cccd_get (cccd k') (cccd_position c cci)
-       = match data with [] => cccd_get (cccd k) (cccd_position c cci) | b :: _ => N.land b 3 end
-    /\ (forall j, j < number_of_client_configs c -> j <> cccd_position c cci -> cccd_get (cccd k') j = cccd_get (cccd k) j)
-    /\ client_mtu k' = client_mtu k /\ encrypted k' = encrypted k /\ pairing k' = pairing k /\ nq k' = nq k
-    /\ conn_store_ok c k'
-    /\ (forall j, j <> cid -> get_conn st' j = get_conn st j)
-    /\ vals st' = vals st /\ hlogs st' = hlogs st /\ wq_owner st' = wq_owner st /\ wq_elems st' = wq_elems st.
-Proof.
-  intros G S P F. rewrite cccd_write_unfold.
-  destruct (2 <? len data + 0) eqn:L; [discriminate|].
-  intros H. apply f_pair_inj in H. destruct H as [<- _].
-  assert (L2 : (length data <= 2)%nat) by (apply N.ltb_ge in L; unfold len in L; lia).
-  split; [exact L2|].
-  set (pos := cccd_position c cci) in *.
-  destruct (cccd_lens _ _ pos (written_value (cccd_get (cccd k) pos) data) S P) as (A & B & C & D).
-  eexists. split.
-  { unfold get_conn, set_conn. cbn [conns]. apply nth_error_upd_eq. eapply nth_error_lt; eauto. }
-  cbn [cccd client_mtu encrypted pairing nq].
-  repeat split; auto.
+  induction l as [|a t IH]; simpl; [tauto|]. intros H.
+  destruct (x =? a) eqn:E.
+  - apply N.eqb_eq in E. subst. split; [unfold len; simpl; lia|reflexivity].
+  - destruct H as [H|H]; [subst; rewrite N.eqb_refl in E; discriminate|].
 Show.
